@@ -42,6 +42,10 @@ def expr_kind(repo, cg, fn, e, key_var=None):
             return 'from-input'
     if isinstance(e, ast.JoinedStr):
         return 'string'
+    if isinstance(e, ast.IfExp):
+        kinds = {expr_kind(repo, cg, fn, e.body, key_var), expr_kind(repo, cg, fn, e.orelse, key_var)}
+        if len(kinds) == 1:
+            return kinds.pop()
     if isinstance(e, ast.Name):
         # a local built up in place: its kind is the kind of its (single-kind) initialisations
         kinds = {expr_kind(repo, cg, fn, v, key_var) for v, k, s in local_defs(fn).get(e.id, []) if k == 'assign'}
@@ -296,6 +300,7 @@ def synthesised_values(ctx, rule):
 
 
 def run(ctx):
+    ctx.rule('R04.7', 'no dead adjustment code: no guard in the merge package compares a variable with its own defining expression (conflicts inside an attachment must be lifted to the attachment level)', floor=1)
     ctx.rule('R04.5', 'values written by resolution strategies with add/replace are a side\'s own value, the text-merge result, or go under a constant, schema-checked key', floor=5)
     ctx.rule('R04.6', 'no strategy arm is tried before an arm that settles a non-conflict (C10 R10.5): "removal wins over a transient-only edit" is what keeps e.g. '
              'execution_count off a cell converted to markdown; a `clear` tried first leaves a null field the target cell type does not admit', floor=1)
@@ -304,3 +309,5 @@ def run(ctx):
     from ..report import run_sub
     run_sub(ctx, c10, {'R10.5': 'R04.6'})
     synthesised_values(ctx, 'R04.5')
+    from .c03 import no_tautological_guards
+    no_tautological_guards(ctx, 'R04.7', ['nbdime.merging.'])
